@@ -858,6 +858,22 @@ fn main() {
                             acc.violation(sig("api-cmp"), format!("cmp is {c:?}, exact order is {want:?}"), || json!({"a": a.describe(), "b": b.describe(), "api": "Ord::cmp"}));
                         }
                         acc.case(boundary, match want { Ordering::Less => "api-less", Ordering::Equal => "api-equal", Ordering::Greater => "api-greater" });
+                        // the same two numbers as `tera::Number` (what `Value::as_number` hands to
+                        // custom filters / tests / functions): its own == and partial_cmp
+                        if let (Some(na), Some(nb)) = (ta.as_number(), tb.as_number()) {
+                            match engine::guarded(|| (na == nb, na.partial_cmp(&nb))) {
+                                Ok((neq, npc)) => {
+                                    if neq != (want == Ordering::Equal) {
+                                        acc.violation(sig("number-eq"), format!("Number == is {neq}, exact order is {want:?}"), || json!({"a": a.describe(), "b": b.describe(), "api": "Value::as_number, Number::eq"}));
+                                    }
+                                    if npc != Some(want) {
+                                        acc.violation(sig("number-partial_cmp"), format!("Number::partial_cmp is {npc:?}, exact order is {want:?}"), || json!({"a": a.describe(), "b": b.describe(), "api": "Value::as_number, Number::partial_cmp"}));
+                                    }
+                                }
+                                Err(p) => acc.violation(sig("number-panic"), format!("Number comparison panicked: {p}"), || json!({"a": a.describe(), "b": b.describe()})),
+                            }
+                            acc.case(boundary, "number-api");
+                        }
                     }
                     Err(p) => {
                         acc.violation(sig("api-panic"), format!("comparison panicked: {p}"), || json!({"a": a.describe(), "b": b.describe(), "api": "eq/partial_cmp/cmp"}));
